@@ -9,7 +9,7 @@ RULE = ('documents: random trees over a 7-tag / 4-id / 3-class / 4-attribute voc
         'html (no namespaces), html5 (XHTML namespace), xhtml and xml, with and without interleaved text / comment / '
         'CDATA / PI nodes, several top-level nodes, detached fragments; selectors: random ASTs of the C01 grammar '
         '(type, universal, id, class, every attribute operator and flag, four combinators, lists, '
-        ':not/:is/:where/:matches/:has nested, structural pseudo-classes) rendered to text; queries: select from the '
+        ':not/:is/:where/:matches/:has nested, structural pseudo-classes) rendered to text, 30% of them containing an attribute selector derived from an attribute value present in the document (whole / prefix / suffix / piece / word / dash-prefix, case mangled, i/s flags); every case is run through the IR-level tie (PY-compiled IR -> matcher model) and the end-to-end tie (selector text -> parser model -> matcher model); queries: select from the '
         'top, select from an inner element, match on elements. A case is non-trivial when some query returns a '
         'non-empty result; distinct = distinct (selector, tree) pairs among those.')
 
@@ -25,6 +25,16 @@ def make_cases(rng, n):
         import enc
         for _ in range(4):
             sel = gen.gen_list(rng, 0, feats)
+            tops = [t for t in top if t[0] == 'e']
+            if len(tops) >= 2 and rng.random() < 0.4:
+                # siblings directly under the document object: sibling combinators apply, parent combinators do not
+                i = rng.randrange(len(tops) - 1)
+                a, b = tops[i][1], tops[rng.randrange(i + 1, len(tops))][1]
+                sel = rng.choice([f'{a} + {b}', f'{a} ~ {b}', '* + *', ':not(* ~ *)', f'{a} ~ {b} > *', f':has(~ {b})', f'{a}:has(+ {b})',
+                                  f'{a} + {b} *', f':is({a}, {b}) ~ *', f'* > {b}', f'* {b}', f':not(* > {b})'])
+            elif els and rng.random() < 0.3:
+                a = gen.gen_attr_sel_for(rng, els)
+                sel = rng.choice([a, a, rng.choice(gen.TAGS) + a, f':not({a})', f':is({a}, {sel})', f'{a} > *', f':has(> {a})'])
             queries = [('select', [], 0)]
             if els:
                 queries.append(('select', enc.path_of(rng.choice(els)), 0))
